@@ -462,6 +462,52 @@ func callstripC18(c *Ctx, lit *ssa.Function) {
 				switch {
 				case tname == "*BinaryExpr":
 					c.Check(replaces && keeps && conditional, "C18.keepothers", key, cc.Pos(), "comparisons are replaced only under the time test and kept otherwise")
+					// ... and only comparisons: which operators does the clause test for?
+					ops := map[string]bool{}
+					tt := p.tokenTable()
+					helper := false
+					ast.Inspect(cc, func(m ast.Node) bool {
+						switch x := m.(type) {
+						case *ast.BinaryExpr:
+							if x.Op == token.EQL || x.Op == token.NEQ {
+								for _, side := range []ast.Expr{x.X, x.Y} {
+									if tv := p.Info.Types[side]; tv.Value != nil && p.TypeStr(tv.Type) == "Token" {
+										v, _ := constant.Int64Val(constant.ToInt(tv.Value))
+										ops[tt.Name[v]] = true
+									}
+								}
+							}
+						case *ast.CaseClause:
+							for _, e := range x.List {
+								if tv := p.Info.Types[e]; tv.Value != nil && p.TypeStr(tv.Type) == "Token" {
+									v, _ := constant.Int64Val(constant.ToInt(tv.Value))
+									ops[tt.Name[v]] = true
+								}
+							}
+						case *ast.CallExpr:
+							if sel, ok := x.Fun.(*ast.SelectorExpr); ok {
+								if ssel, ok := sel.X.(*ast.SelectorExpr); ok && ssel.Sel.Name == "Op" {
+									helper = true
+								}
+							}
+						}
+						return true
+					})
+					k2 := "rewriteWithoutTimeDimensions$lit: case *BinaryExpr, comparisons only"
+					cmp := 0
+					for _, o := range []string{"EQ", "NEQ", "LT", "LTE", "GT", "GTE"} {
+						if ops[o] {
+							cmp++
+						}
+					}
+					switch {
+					case cmp >= 4:
+						c.OK("C18.keepothers", k2, cc.Pos(), "the replacement is limited to comparison operators")
+					case helper:
+						c.Unk("C18.keepothers", k2, cc.Pos(), "the operator is classified by a helper this rule does not evaluate")
+					default:
+						c.Bad("C18.keepothers", k2, cc.Pos(), "any binary node with a time operand is replaced by true, arithmetic included: `time - 1h > x` becomes `true > x`, neither a removed bound nor the kept predicate")
+					}
 				case replaces && !conditional:
 					c.Bad("C18.keepothers", key, cc.Pos(), "every "+tname+" is replaced by true, whether or not it is part of a time bound: a predicate such as v > floor(x) loses its operand")
 				case replaces:
